@@ -55,20 +55,9 @@ mod k {
         assert!((d - k).abs() <= 2.0e-6, "C03.azimuth.congruent");
     }
 
-    // turning the building by delta shifts every converted azimuth by -delta (mod 360), for exactly representable sums
-    #[kani::proof]
-    fn c03_azimuth_shift() {
-        let a = any_f32_in(-360.0, 360.0);
-        let delta = any_f32_in(0.0, 360.0);
-        let b = a + delta;
-        kani::assume((b as f64) == (a as f64) + (delta as f64));
-        kani::cover!(delta > 1.0, "precondition satisfiable");
-        let ra = orientation_bdl_to_52016(a) as f64;
-        let rb = orientation_bdl_to_52016(b) as f64;
-        let d = ((ra - rb) - delta as f64) / 360.0;
-        let k = d.round();
-        assert!((d - k).abs() <= 4.0e-6, "C03.azimuth.shift");
-    }
+    // (the shift lemma r(a + d) - r(a) = -d (mod 360) is a consequence of C03.azimuth - both sides are congruent to
+    //  180 - x; its direct Kani proof took 100 s to > 3000 s depending on load and was dropped as unstable; the bounded
+    //  obligation C03.rotation.azimuth_shift checks it on converted projects)
 }
 
 #[cfg(verif_native)]
